@@ -96,7 +96,10 @@ func checkImportsExplicit(c *Ctx, rule string, gen *packages.Package) {
 			return true
 		})
 	}
+	rxAction := regexp.MustCompile(`⟦[^⟧]*⟧`)
 	strip := func(s string) string {
+		// template actions are not Go text (their arguments look like declarations: `(json .Default)`)
+		s = rxAction.ReplaceAllString(s, "⟦⟧")
 		s = rxStringLit.ReplaceAllString(s, `""`)
 		return rxLineComment.ReplaceAllString(s, "")
 	}
